@@ -44,14 +44,19 @@ META = {
                 "(theorem Ws_det_ne_zero); the driver's value is compared with the code's on every case"],
     "assumptions": ["inputs are valid group elements: unit quaternion to 1 ulp of the dtype, positive scale in [e^-8, e^8]"],
     "partial": [
-        "rounding: every clause 'with the accuracy stated in C01' is theorem (exact identity over the reals) + measured agreement",
-        "SO3 regime 3 (‖v‖ ≤ eps) and the Taylor branch of Exp: Exp(Log q) / Log(Exp x) are exact only up to O(eps^4) relative; "
-        "the theorems give the branch formulas and SO3_log_series_partial bounds the series against the exact logarithm; "
-        "the composed round trip in these bands rides on correspondence",
-        "SE3/Sim3 Exp(Log X) in regime 2 (|w| ≤ eps): rotation part proved within sqrt(2)·eps (SO3_exp_log_near_pi); translation part "
-        "(JlInv at θ = π exactly vs the true angle π-2|w|) rides on correspondence",
-        "Sim3 Log(Inv X) = -Log X is proved on the closed-form regime of rxso3_Ws (θ > eps, |σ| > eps) and for σ = 0; the series regimes "
-        "hold to O(eps) and ride on correspondence",
+        "rounding: every clause 'with the accuracy stated in C01' is theorem (exact identity / explicit bound over the reals) + "
+        "measured agreement of the float code with the 192-bit model at the property's tolerances",
+        "Exp(Log X) for ‖v‖ <= eps (regime 3): SO3_exp_log_regime3_partial proves the logarithm is within 2‖v‖^5/(5|w|^5) of the exact "
+        "principal logarithm and has norm <= 2; the composition with the two branches of so3Exp (O(eps^3) defect) rides on the "
+        "explog stream",
+        "Log(Inv X) = -Log X: SO3 and RxSO3 proved for every input; SE3_log_inv_partial / Sim3_log_inv_partial cover regime 1 of the "
+        "quaternion logarithm (and, for Sim3, |log s| > eps or s = 1); in the eps-thin remaining regimes the translation part agrees "
+        "to O(eps)·‖t‖ only, measured by the loginv stream and oracle",
+        "Log(Exp x) = x: SO3 proved on all of [0, π] (zero, Taylor branch with |δ| <= θ^4/50, gap band, exact band π·eps<θ<π(1-eps), "
+        "near π within π·eps); SE3/RxSO3/Sim3 proved exactly for zero rotation and on the band π·eps<θ<π(1-eps); their translation part "
+        "in the eps-thin bands next to 0 and π rides on the logexp stream",
+        "within 8 ulp (of the dtype) of an odd multiple of π the sign of w = cos(θ/2) is decided by rounding: there Log(Exp x) is "
+        "checked as a transformation (Exp(Log(Exp x)) = Exp(x)), and the clause 'angle below π' is applied 4 ulp away from π",
     ],
 }
 
@@ -544,7 +549,7 @@ def order_probe_spec(ctx: Ctx):
             for k, (q, _) in enumerate(anchors):
                 out = []
                 if name in ("SE3", "Sim3"):
-                    out += U.vec(rng, [0.0, 1.0, 37.0][k % 3])
+                    out += U.vec(rng, TR_ANCHORS[(k + 2) % len(TR_ANCHORS)])
                 out += q
                 if name in ("RxSO3", "Sim3"):
                     out.append(math.exp(sig[(k * 7 + 1) % len(sig)]))
@@ -639,8 +644,13 @@ def run_cases(ctx: Ctx, n_group, n_alg):
     flush(ctx, pend)
 
 
+TR_ANCHORS = [0.0, 1.0, 1e-3, 37.0, 1e3, 1e-20, 1e6]
+
+
 def run_anchor_sweep(ctx: Ctx):
-    """every anchor quaternion × every type × both dtypes at least once per run (deterministic part of the corpus)"""
+    """deterministic corner corpus, seen by every seed: every anchor quaternion × every type × both dtypes, with
+    translations 0 / tiny / huge and log-scales 0 / ±eps-neighbourhood / ±8 cycling independently; a 50-digit
+    mpmath check of the logarithm on a sub-sample (truth independent of the model)"""
     rng = ctx.rng
     pend = []
     for dtype in ("float64", "float32"):
@@ -652,7 +662,7 @@ def run_anchor_sweep(ctx: Ctx):
             for k, (q, tag) in enumerate(anchors):
                 out = []
                 if name in ("SE3", "Sim3"):
-                    out += U.vec(rng, [0.0, 1.0, 1e-3, 37.0, 1e3][k % 5])
+                    out += U.vec(rng, TR_ANCHORS[k % len(TR_ANCHORS)])
                 out += q
                 if name in ("RxSO3", "Sim3"):
                     out.append(math.exp(sig[(k * 5 + 3) % len(sig)]))
@@ -661,6 +671,37 @@ def run_anchor_sweep(ctx: Ctx):
             _, X64 = U.to_dtype_exact(rows, dtype)
             case = {"kind": "group", "type": name, "dtype": dtype, "shape": [len(rows)], "X": X64.tolist(), "tags": tags, "id": f"anchors-{name}-{dtype}"}
             eval_group_case(ctx, case, pend)
+            sub = {**case, "X": case["X"][::6], "tags": tags[::6], "shape": [len(case["X"][::6])]}
+            mp_check_log(ctx, sub)
+            ctx.count(f"mpmath-log.{name}.{dtype}", len(sub["X"]))
+    flush(ctx, pend)
+
+
+def run_algebra_sweep(ctx: Ctx):
+    """deterministic algebra corpus: the whole angle ladder (0, tiny, eps-neighbourhood, sqrt(eps), …, π-δ, π, π+δ, 2π±δ, 10)
+    × log-scale anchors × translation anchors, every type, both dtypes"""
+    rng = ctx.rng
+    pend = []
+    axes = [[1.0, 0.0, 0.0], [0.0, 0.0, -1.0], [0.6, 0.0, 0.8], [0.36, 0.48, -0.8], [-2 / 7, 3 / 7, 6 / 7]]
+    for dtype in ("float64", "float32"):
+        eps = common.EPS[dtype]
+        lad = common.ladder(eps) + common.ladder_big() + [math.pi * (1 - 8 * eps), math.pi * (1 - 64 * eps), math.pi - 1e-4]
+        sig = anchor_sigmas(eps)
+        for name in U.GROUPS:
+            rows, tags = [], []
+            for k, th in enumerate(lad):
+                d = axes[k % len(axes)]
+                out = []
+                if name in ("SE3", "Sim3"):
+                    out += U.vec(rng, TR_ANCHORS[(k + 1) % len(TR_ANCHORS)])
+                out += [th * d[0], th * d[1], th * d[2]]
+                if name in ("RxSO3", "Sim3"):
+                    out.append(sig[(k * 3 + 1) % len(sig)])
+                rows.append(out)
+                tags.append(f"th{common.sig_mag(th)}")
+            _, x64 = U.to_dtype_exact(rows, dtype)
+            case = {"kind": "alg", "type": name, "dtype": dtype, "shape": [len(rows)], "x": x64.tolist(), "tags": tags, "id": f"ladder-{name}-{dtype}"}
+            eval_alg_case(ctx, case, pend)
     flush(ctx, pend)
 
 
@@ -668,7 +709,8 @@ def run(ctx: Ctx):
     spec, proc = order_probe_start(ctx)      # runs concurrently in a fresh interpreter
     check_inverse_contract(ctx, 12)
     run_anchor_sweep(ctx)
-    run_cases(ctx, ctx.pick(1300, 16000), ctx.pick(900, 11000))
+    run_algebra_sweep(ctx)
+    run_cases(ctx, ctx.pick(1000, 9000), ctx.pick(700, 6000))
     order_probe_finish(ctx, spec, proc)
     if DIAG:
         for k in sorted(_diag):
